@@ -296,6 +296,8 @@ func (c *Conn) readFramePayload(ctx context.Context, p []byte) (int, error) {
 		case <-ctx.Done():
 			return n, ctx.Err()
 		default:
+			// The transport failed in the middle of a frame: the stream cannot be resumed.
+			c.closeTransport()
 			return n, fmt.Errorf("failed to read frame payload: %w", err)
 		}
 	}
